@@ -1,2 +1,18 @@
 import PieModel.Props.C03
-#print axioms PieModel.C03_placeholder
+
+#print axioms PieModel.C03_schedule_state
+#print axioms PieModel.C03_schedule_store
+#print axioms PieModel.C03_schedule_establishes_I1
+#print axioms PieModel.C03_invariant_start
+#print axioms PieModel.C03_invariant_preserved
+#print axioms PieModel.C03_invariant_executeScheduled
+#print axioms PieModel.C03_closure
+#print axioms PieModel.C03_sources
+#print axioms PieModel.C03_chain
+#print axioms PieModel.C03_two_rounds
+#print axioms PieModel.C03_shallowReq_after_topDown
+#print axioms PieModel.C03_shallowReq_after_full_topDown
+#print axioms PieModel.C03_noOrphan_empty
+#print axioms PieModel.C03_noOrphan_after_topDown
+#print axioms PieModel.c03Pie1_hyps
+#print axioms PieModel.c03Run2_ok
